@@ -55,7 +55,7 @@ def do_import(prop, src):
             print("demo is not a Go test of a known package:", demo)
             return 1
         tgt = os.path.join(wt, sub, "zz_verif_demo_test.go")
-        run = [vlib.GO, "test", "-count=1", "-run", "^(%s)$" % "|".join(tests), "./" + sub]
+        run = [vlib.GO, "test", "-tags", "verif", "-count=1", "-run", "^(%s)$" % "|".join(tests), "./" + sub]
         shutil.copy(demo, tgt)
         rc0, out0 = sh(run, wt)
         ran.append("without the change: `%s` in %s -> exit %d" % (" ".join(run[1:]), sub, rc0))
